@@ -25,12 +25,13 @@ Definition C11_full : Prop :=
 
 Lemma splice_partial W head cmd tail out f :
   word_ok head cmd tail -> run_capture W cmd = Some out ->
-  ~ In 36 (trim out) -> trim out = strip_nl out ->
+  has_dollar_paren (head ++ trim out ++ tail) = false -> trim out = strip_nl out ->
   dollar_loop (S (S f)) W (head ++ [36; 40] ++ cmd ++ [41] ++ tail) [] = Ok (Some (head ++ strip_nl out ++ tail), [cmd]).
 Proof.
   intros (H1 & H2 & H3 & H4 & H5 & H6 & H7 & H8) Hr Hd Ht. rewrite <- Ht.
-  replace (trim out) with (trim (oracle_out W cmd)) by (unfold oracle_out; rewrite Hr; reflexivity).
-  apply dollar_loop_splices; try assumption. unfold oracle_out. rewrite Hr. exact Hd.
+  assert (E : oracle_out W cmd = out) by (unfold oracle_out; rewrite Hr; reflexivity).
+  rewrite <- E in *.
+  apply dollar_loop_splices; assumption.
 Qed.
 
 (** since 85ca576: an inner line that does not plan gives the empty replacement, after one call *)
@@ -49,24 +50,14 @@ Proof.
   - left. intros H. repeat (destruct H as [H|H]; [discriminate|]). exact H.
 Qed.
 
-(** $(x) where x prints a$1b : the output is used as a replacement template, $1b is read as a reference to a group that does not exist *)
+(** regression (since 5e2d7b7): $(x) where x prints a$1b : the output is text, $1b stays (it used to be
+    read as a reference to a group that does not exist) *)
 Definition W_tpl := world_of [] [([120], Some (s2l "a$1b"))].
-Lemma template_witness : forall f, (2 <= f)%nat ->
-  dollar_loop f W_tpl (s2l "$(x)") [] = Ok (Some (s2l "a"), [[120]]).
+Lemma template_kept : forall f, (2 <= f)%nat ->
+  dollar_loop f W_tpl (s2l "$(x)") [] = Ok (Some (s2l "a$1b"), [[120]]).
 Proof.
   intros f Hf. destruct f as [|[|f]]; try lia.
   rewrite !dollar_loop_S. vm_compute. reflexivity.
-Qed.
-
-Theorem full_refuted : ~ C11_full.
-Proof.
-  intros H. destruct (H W_tpl [] [120] [] word_ok_x) as [H1 _].
-  destruct (H1 (s2l "a$1b") eq_refl) as [f Hf].
-  destruct f as [|[|f]].
-  - discriminate.
-  - vm_compute in Hf. discriminate.
-  - change ([] ++ [36; 40] ++ [120] ++ [41] ++ []) with (s2l "$(x)") in Hf.
-    rewrite template_witness in Hf by lia. vm_compute in Hf. discriminate.
 Qed.
 
 (** $(x) where x prints <blank>v<blank><newline> : all surrounding white space goes, not only the newline *)
@@ -78,7 +69,33 @@ Proof.
   rewrite !dollar_loop_S. vm_compute. split; reflexivity.
 Qed.
 
+Lemma word_ok_pxq : word_ok [112] [120] [113].
+Proof.
+  unfold word_ok. cbn. repeat split; try discriminate;
+    try (intros H; repeat (destruct H as [H|H]; [discriminate|]); exact H).
+  left. intros H. repeat (destruct H as [H|H]; [discriminate|]). exact H.
+Qed.
+
+(** the full statement asks for p<blank>v<blank>q; the loop gives pvq *)
+Theorem full_refuted : ~ C11_full.
+Proof.
+  intros H. destruct (H W_ws [112] [120] [113] word_ok_pxq) as [H1 _].
+  destruct (H1 [32; 118; 32; 10] eq_refl) as [f Hf].
+  change ([112] ++ [36; 40] ++ [120] ++ [41] ++ [113]) with (s2l "p$(x)q") in Hf.
+  destruct f as [|[|f]].
+  - discriminate.
+  - vm_compute in Hf. discriminate.
+  - rewrite (proj1 (whitespace_witness (S (S f)) ltac:(lia))) in Hf. vm_compute in Hf. discriminate.
+Qed.
+
 (** $(x)$(y) : the greedy group takes everything up to the LAST closing paren as one command *)
 Lemma greedy_merge_witness :
   find_dollar (s2l "$(x)$(y)") = Some ([], s2l "x)$(y", [], []).
 Proof. vm_compute. reflexivity. Qed.
+
+Print Assumptions splice_partial.
+Print Assumptions unplannable_empty.
+Print Assumptions template_kept.
+Print Assumptions whitespace_witness.
+Print Assumptions full_refuted.
+Print Assumptions greedy_merge_witness.
